@@ -41,6 +41,10 @@ class Spec:
     time_depth: int = 1
     max_execs: int | None = None
     pair_time: bool = False
+    # after the run has ended, run the same workflow again from the finished run's context (fresh StartEvent),
+    # this many times; "dict" round-trips the context through to_dict()/from_dict() + JSON first
+    continue_runs: int = 0
+    continue_via: str = "ctx"
 
 
 def limits_of(wf: Any) -> dict[str, int]:
@@ -109,6 +113,25 @@ def run_engine(ex: Execution, spec: Spec, oracle: Oracle) -> tuple[Any, list[Any
             e.add_script([Action("snapshot+resume", do_resume)])
         cfg.stop_when = lambda hh: state["hd"].is_done() and hh.stream_done
         e.drive()
+        for n_cont in range(spec.continue_runs):
+            if e.stuck or e.capped or not state["hd"].is_done():
+                break
+            prev = state["hd"]
+            h.restart_marks.append(len(h.published))
+            h.stream_done = False
+            h.stream_error = None
+            h.stream = []
+            state["resumed"] = True
+            state["continued"] = n_cont + 1
+            if spec.continue_via == "dict":
+                snap = json.loads(json.dumps(prev.ctx.to_dict()))
+                state["snap"] = snap
+                ctx2 = Context.from_dict(wf, snap)
+            else:
+                ctx2 = prev.ctx
+            state["hd"] = wf.run(ctx=ctx2, run_id=f"r{n_cont + 2}")
+            state["consumer"] = e.consume_stream(state["hd"])
+            e.drive()
         if oracle.final:
             oracle.final(h, e, state)
         out = task_outcome(state["hd"]._result_task)
@@ -264,6 +287,59 @@ def wf_wait(w: int, n: int = 3, timeout: float | None = None) -> type:
     ])
 
 
+def wf_early_stop(k: int, w: int, wait: bool = False) -> type:
+    """``start`` hands out k Work events and ends the run with a StopEvent whenever its gate opens - possibly while
+    ``work`` still has invocations running / queued, ``fin`` holds a partial collection, or (wait=True) ``work`` is
+    suspended in wait_for_event.  Used with Spec.continue_runs: the next run starts from that left-over state."""
+
+    async def start(self, ctx, ev, inv):  # noqa: ANN001
+        from vmc.engine import H
+
+        base = 10 * len(H().restart_marks)
+        for i in range(k):
+            ctx.send_event(Work(uid=base + i))
+        await gate(f"start{base}")
+        return StopEvent(result=f"early{base}")
+
+    async def work(self, ctx, ev, inv):  # noqa: ANN001
+        if wait and ev.uid % 10 == 0:
+            await ctx.wait_for_event(Resp, requirements={"key": str(ev.uid)}, waiter_id=f"w{ev.uid}",
+                                     waiter_event=Ask(uid=ev.uid))
+        await gate(f"w{ev.uid}")
+        return Done(uid=ev.uid)
+
+    async def fin(self, ctx, ev, inv):  # noqa: ANN001
+        r = ctx.collect_events(ev, [Done] * (2 * k))
+        if r is None:
+            return None
+        return StopEvent(result=sorted(e.uid for e in r))
+
+    return make_workflow("EarlyStop", [
+        make_step("start", [StartEvent], [Work, StopEvent], start),
+        make_step("work", [Work], [Done], work, num_workers=w),
+        make_step("fin", [Done], [StopEvent, None], fin, num_workers=1),
+    ])
+
+
+def continue_specs(tier: str) -> list[Spec]:
+    """runs that end with work left over, continued from the finished run's context"""
+    q = tier == "quick"
+    sp = []
+    for k, w in ([(1, 1), (2, 1), (2, 2)] if q else [(1, 1), (2, 1), (2, 2), (3, 2)]):
+        for via in ("ctx", "dict"):
+            sp.append(Spec(f"early_stop_continue(k={k},w={w},{via})", {"k": k, "w": w, "via": via},
+                           (lambda k=k, w=w: wf_early_stop(k, w)), continue_runs=1, continue_via=via,
+                           max_dev=(3 if q else 5), tags=("continue",)))
+    sp.append(Spec("early_stop_continue_wait(k=2,w=2,dict)", {"k": 2, "w": 2, "via": "dict", "wait": True},
+                   lambda: wf_early_stop(2, 2, wait=True), continue_runs=1, continue_via="dict",
+                   scripts=(lambda state: [[Action("send Resp0", lambda: state["hd"].ctx.send_event(Resp(uid=0, key="0")))]]),
+                   max_dev=(3 if q else 5), tags=("continue", "wait")))
+    if not q:
+        sp.append(Spec("early_stop_continue_twice(k=2,w=1,ctx)", {"k": 2, "w": 1, "via": "ctx", "runs": 3},
+                       lambda: wf_early_stop(2, 1), continue_runs=2, continue_via="ctx", max_dev=4, tags=("continue",)))
+    return sp
+
+
 def resp_scripts(n: int) -> Callable[[dict[str, Any]], list[list[Action]]]:
     def mk(state: dict[str, Any]) -> list[list[Action]]:
         def send(uid: int) -> Action:
@@ -373,4 +449,4 @@ ENGINE_ASSUMPTIONS = [
     "chooses, in deadline order",
 ]
 
-__all__ = ["Oracle", "Spec", "run_engine", "to_programs", "catalog", "stream_repr", "ENGINE_ASSUMPTIONS"]
+__all__ = ["Oracle", "Spec", "run_engine", "to_programs", "catalog", "continue_specs", "stream_repr", "ENGINE_ASSUMPTIONS"]
